@@ -599,6 +599,11 @@ func (iv *inv) binary(e *expr, a, b []slot) []slot {
 				if e.bop == opDiv {
 					r[i] = slot(uint32(x / y))
 				} else {
+					// HLSL reference, "Operators": integer % "is defined only in cases where either both
+					// sides are positive or both sides are negative".
+					if (x < 0 && y > 0) || (x > 0 && y < 0) {
+						panic(trap("smod-mixed-sign", e.line, "%d %% %d: integer %% with operands of different sign", x, y))
+					}
 					r[i] = slot(uint32(x % y))
 				}
 			case opAnd:
